@@ -273,6 +273,40 @@ except TypeError:
 return raised
 """
     out.append(mk_case("c02.refuse.key_index_mix", [("t1", "int"), ("n", "int")], body, pre=["I64(t1, n)"]))
+    # operands whose arguments are data paths, filtered with the document supplied (as rules do): the combination is the
+    # Boolean combination of what its operands give *in the same call*, on either side, at any depth, operators and spec lists
+    for op1 in OPS:
+        for op2 in OPS:
+            body = f"""
+src = {{'lo': t1, 'hi': t2, 'vals': [x, 3]}}
+items = src['vals']
+sd = Data(src)
+a = Value.greater_than(DataPath('lo'))
+b = Value.less_than(DataPath('hi'))
+c = Value.equal_to(3)
+A, B, C = V('greater_than', t1), V('less_than', t2), V('equal_to', 3)
+ok = same('path-valued operand on the right', (c {SYM[op1]} b).filter(items, source_data=sd).result, ref_tree(({op1!r}, C, B), items))
+ok = ok and same('nested on the right', (c {SYM[op1]} (a {SYM[op2]} b)).filter(items, source_data=sd).result, ref_tree(({op1!r}, C, ({op2!r}, A, B)), items))
+ok = ok and same('nested on the left', ((c {SYM[op2]} a) {SYM[op1]} b).filter(items, source_data=sd).result, ref_tree(({op1!r}, ({op2!r}, C, A), B), items))
+return ok
+"""
+            out.append(mk_case(f"c02.patharg_operands.{op1}.{op2}", [("t1", "int"), ("t2", "int"), ("x", "int")], body,
+                               pre=[f"BU({L}, t1, t2, x)"], stubs=["sym_repr"]))
+    for op1 in OPS:
+        body = f"""
+src = {{'lo': t1, 'hi': t2, 'vals': [x, 3]}}
+items = src['vals']
+A, B, C = V('greater_than', t1), V('less_than', t2), V('equal_to', 3)
+spec = {{{op1!r}: [{{'value.equal_to': 3}}, {{'value.greater_than': {{'path': ['lo']}}}}, {{'value.less_than': {{'path': ['hi']}}}}]}}
+TS = ({op1!r}, ({op1!r}, C, A), B)
+ok = same('spec list with path-valued entries', ConditionLike.from_spec(spec).filter(items, source_data=Data(src)).result, ref_tree(TS, items))
+t = Rule(('vals', ListValue()), ConditionLike.from_spec(spec)).test(src)
+exp = ref_tree(TS, items)
+ok = ok and same('through a rule', (t.is_valid, t.num_failures), (all(exp), len([e for e in exp if not e])))
+return ok
+"""
+        out.append(mk_case(f"c02.patharg_operands.spec.{op1}", [("t1", "int"), ("t2", "int"), ("x", "int")], body,
+                           pre=[f"BU({L}, t1, t2, x)"], stubs=["sym_repr"]))
     # one Data object queried with a series of freshly built (and dropped) combinations: what an earlier, now dead,
     # combination computed on it must not be served to a later one (e.g. through an identity-keyed memo)
     for did, doc in [("list", "[x, 0, 5]"), ("map", "{'a': x, 'c': 0}")]:
